@@ -102,7 +102,8 @@ FrameOK(r) ==
       [] r.fn = "nextFrame" ->
            \* in = <<Mi (16 numbers), pi, pj, ti, tj>>: the result's origin is pj and its x axis the new tangent
            LET Mi == Sq(t, r.in[1], 4)  pi == in(2)  pj == in(3)  ti == in(4)  tj == in(5) IN
-           /\ (Generic(ti, tj) /\ SameDir(Row(Mi, 1), ti, ft)) =>
+           \* (the frame handed in must itself be a frame: nextFrame turns it, it does not repair it)
+           /\ (Generic(ti, tj) /\ SameDir(Row(Mi, 1), ti, ft) /\ Orthonormal(Rows3(Mi), OrthoTol(t))) =>
                  /\ ortho /\ SameDir(Row(A, 1), tj, ft)
                  /\ \A j \in 1..3 : D!DWithin(A[4][j], pj[j], D!DMul(FrameTol(t), D!DAdd(D!DOne, D!DAdd(D!DAbs(pj[j]), D!DAbs(pi[j])))))
            \* exactly parallel (or zero) tangents: no rotation, the previous frame moved by pj - pi
